@@ -43,9 +43,10 @@ class Check:
                 line = f"KNOWN-FINDING: property={self.pid} {k.get('what', what)}"
                 if line not in self.known_hits: self.known_hits.append(line); print(line, flush=True)
                 return
-        os.makedirs(os.path.join(VERIF, 'replays'), exist_ok=True)
+        rdir = os.environ.get('HV_REPLAY_DIR') or os.path.join(VERIF, 'replays')
+        os.makedirs(rdir, exist_ok=True)
         h = hashlib.sha256(json.dumps(replay, sort_keys=True, default=str).encode()).hexdigest()[:12]
-        path = os.path.join(VERIF, 'replays', f'{self.pid}-{h}.json')
+        path = os.path.join(rdir, f'{self.pid}-{h}.json')
         json.dump({'property': self.pid, 'obligation': name, 'signature': signature, 'what': what, 'replay': replay}, open(path, 'w'), indent=1, default=str)
         self.violations.append((name, path))
         if len(self.violations) <= 8:
@@ -75,8 +76,9 @@ class Check:
         ev = {'property_id': self.pid, 'tier': self.tier, 'seed': self.seed, 'level': self.level, 'coverage': cov,
               'assumptions': self.assumptions, 'wall_s': round(wall, 1), 'violations': len(self.violations),
               'known_findings_hit': self.known_hits}
-        os.makedirs(os.path.join(VERIF, 'evidence'), exist_ok=True)
-        p = os.path.join(VERIF, 'evidence', f'{self.pid}.json')
+        edir = os.environ.get('HV_EVIDENCE_DIR') or os.path.join(VERIF, 'evidence')
+        os.makedirs(edir, exist_ok=True)
+        p = os.path.join(edir, f'{self.pid}.json')
         json.dump(ev, open(p + '.tmp', 'w'), indent=1, default=str); os.replace(p + '.tmp', p)
         n_hold = cov['discharged']
         print(f'[{self.pid}] tier={self.tier} seed={self.seed}: {len(self.obl)} obligations, {n_hold} hold, {len(self.violations)} violations, '
